@@ -51,3 +51,7 @@ TRUSTED_ASYNC = 'N2 de-async: suspension points are dropped; sound for single-ta
 TRUSTED_CHAN = 'concurrency between client handles is abstracted by the queue contract (unbounded mpsc FIFO across all sender clones, items travel as tuples), not explored schedule by schedule; drop semantics of Rust (State, responders and the transport are dropped when run_loop returns) are assumed, not checked'
 for _k in ('C01', 'C04', 'C05', 'C08'):
     PROPS[_k] = {'units': ['C'], 'spec_tags': ['sess'], 'trusted': [TRUSTED_TOKIO, TRUSTED_SESS, TRUSTED_ASYNC, TRUSTED_CHAN, TRUSTED_BYTES, TRUSTED_STD], 'bounded': []}
+
+PROPS['C18']['units'] = ['P', 'C']
+PROPS['C18']['spec_tags'] = ['wire', 'fold', 'sess']
+PROPS['C18']['trusted'] = PROPS['C18']['trusted'] + [TRUSTED_ASYNC, 'the password is one argument the command builder accepts (no LF / NUL after rendering): precondition of do_connect, otherwise Command::argument panics (observation, DESIGN §10)']
